@@ -7,7 +7,7 @@ from . import formats_common as fc
 from .common import Oracle, Suite, errname, merge
 
 GEN_UNITS = ["B64", "Handlers", "PyUnicode", "PyCase", "StaticFmt"]
-LEAN_TARGETS = ["PasslibVerif.Props.C07", "PasslibVerif.Props.C07Static"]
+LEAN_TARGETS = ["PasslibVerif.Props.C07", "PasslibVerif.Props.C07Static", "PasslibVerif.Props.C07DesBcrypt"]
 ASSUMPTIONS = [
     "formats without a Lean model yet are explored by the real-code round-trip oracle only (listed under only_correspondence_checked)",
 ]
@@ -32,7 +32,7 @@ def correspond(ctx):
             for v in fc.variants(h, name, hs, rng):
                 s_fmt.add(f"fmt parse {name} {fc.cps(v)}", lambda v=v: fc.parse_dump(name, v), name + ":parse")
                 s_fmt.add(f"fmt reparse {name} {fc.cps(v)}", lambda v=v: fc.reparse(name, v), name + ":render")
-            muts = fc.mutants(hs, rng, 25 if not ctx.thorough else 200) + fc.extra_mutants(name, hs, rng, 12 if not ctx.thorough else 60)
+            muts = fc.mutants(hs, rng, 25 if not ctx.thorough else 200) + fc.extra_mutants(name, hs, rng, 12 if not ctx.thorough else 60) + fc.parse_only(name, hs)
             for m in muts:
                 s_fmt.add(f"fmt parse {name} {fc.cps(m)}", lambda m=m: fc.parse_dump(name, m), name + ":parse-mutant")
             if name in fc.IDENTIFY_CHECKED:
